@@ -9,5 +9,7 @@ CONSTANTS
   UNLOCK_BEFORE_PARENT = FALSE
   NO_INS_ON_INSERT = TRUE
   NO_INS_ON_DELETE = FALSE
-INVARIANTS LinOK RootOpsOK Quiescent
+  SCAN_NO_FINAL = FALSE
+  SCAN_NO_ENTRY_CHECK = FALSE
+INVARIANTS LinOK ScanOK NvOK RootOpsOK Quiescent
 PROPERTY Termination
